@@ -10,7 +10,7 @@ TECHNIQUE = (
     "static analysis: constant folding of the two pure decoder functions over the finite table of the README's documented operand codes; literal snapping constants and window symmetry; key agreement of the TP/LT merge; index-bound (interval) check of block indexing with guard recognition; emission path (every entry inserted, dump covers the list inserted into); aliasing-depth ownership analysis of the import functions (memoised returns are shared storage)"
 )
 EXPLANATION = (
-    "R1: both _create_db_operand_* decoders are constant-folded (osaca_sa/consteval.py, an interpreter over the AST for the pure subset they use; nothing of the repository is executed) over the finite table of documented operand codes - every memory-flag subset in both orders included - and a few undocumented letters; the operand each code yields must equal the README's 'Benchmark import' bullet lists (x86: r, x/y/z, i, m[b o i s]; AArch64: w x b h s d q, v[bhsd] default d, i, m[b o i s r p]). R2: throughput candidates are 1/n for n in range(1, 11); the acceptance window is the symmetric pair 0.95/1.05 in both modes; an accepted latency is rounded to the nearest integer, an accepted throughput is the matching reciprocal; out of window returns None. R3: TP and LT lines of one ibench form map to the same key and update the same entry object. R4: every index i + k into the asmbench lines stays below the bound the loop guarantees or is guarded; the malformed-block path breaks (earlier entries kept). R5: every parsed entry is passed to set_instruction_entry and the dump covers the list entries were appended to. R6: in the functions of db_interface reachable from import_benchmark_output no object with aliasing depth 0 to a memoised return value, module global, class attribute or default argument is mutated in place (E4/E5 ownership analysis): a decoder result shared between forms cannot be edited per form."
+    "R1: both _create_db_operand_* decoders are constant-folded (osaca_sa/consteval.py, an interpreter over the AST for the pure subset they use; nothing of the repository is executed) over the finite table of documented operand codes - every memory-flag subset in both orders included - and a few undocumented letters; the operand each code yields must equal the README's 'Benchmark import' bullet lists (x86: r, x/y/z, i, m[b o i s]; AArch64: w x b h s d q, v[bhsd] default d, i, m[b o i s r p]). R2: throughput candidates are 1/n for n in range(1, 11); the acceptance window is the symmetric pair 0.95/1.05 in both modes; an accepted latency is rounded to the nearest integer, an accepted throughput is the matching reciprocal; out of window returns None. R3: TP and LT lines of one ibench form map to the same key and update the same entry object. R4: every index i + k into the asmbench lines stays below the bound the loop guarantees or is guarded; the malformed-block path breaks (earlier entries kept). R5: every parsed entry is passed to set_instruction_entry and the dump covers the list entries were appended to. R6: in the functions of db_interface reachable from import_benchmark_output no object with aliasing depth 0 to a memoised return value, module global, class attribute or default argument is mutated in place (E4/E5 ownership analysis): a decoder result shared between forms cannot be edited per form. R7: what set_instruction updates when the imported form already exists is an object the dump emits (every object filed in the look-up index is the object in the dumped list), and the comparison that DB-format operands end in is not constant."
 )
 NOT_DECIDED = "Numeric behaviour exactly at the window boundaries and the YAML round trip of the emitted model."
 ASSUMPTIONS = ["README.rst section 'Benchmark import' is the documented naming convention"]
@@ -429,6 +429,65 @@ def _r6(ctx):
     ctx.extra["import_functions"] = sorted(f.qname for f in own)
 
 
+def _r7(ctx):
+    ctx.rule("R7", "an import that hits an existing entry updates what the dump emits, and hits only an entry of the same operand kinds")
+    mm = "MachineModel"
+    si = ctx.func(mm + ".set_instruction")
+    gi = ctx.func(mm + ".get_instruction")
+    dump = ctx.func(mm + ".dump")
+    # (a) where get_instruction looks, and what dump emits
+    looks = sorted({m.group(1) for m in re.finditer(r"self\._data\[['\"](\w+)['\"]\]", U(gi.node))})
+    emits = [n for n in ast.walk(dump.node) if isinstance(n, ast.For) and re.match(r"self\._data\[['\"]instruction_forms['\"]\]$", U(n.iter))]
+    found = [a for a in C.assigns_to(si.node, "instr_data") if C.is_call_to(a.value, "get_instruction")]
+    if looks != ["instruction_forms_dict"] or not emits or not found:
+        ctx.unknown("R7", "update path of set_instruction", si.where(), "get_instruction looks in %s; dump loop over instruction_forms found=%s" % (looks, bool(emits)))
+        return
+    # every object put into the look-up index must be the object that sits in the dumped list
+    n_sites = 0
+    for f in ctx.repo.all_funcs():
+        if f.cls is None or f.cls.name != mm:
+            continue
+        for c in ast.walk(f.node):
+            if not (isinstance(c, ast.Call) and isinstance(c.func, ast.Attribute) and c.func.attr == "append" and len(c.args) == 1
+                    and "instruction_forms_dict" in U(c.func.value)):
+                continue
+            n_sites += 1
+            v = c.args[0]
+            same = [x for x in ast.walk(f.node) if isinstance(x, ast.Call) and isinstance(x.func, ast.Attribute) and x.func.attr == "append"
+                    and re.search(r"\[['\"]instruction_forms['\"]\]$", U(x.func.value)) and len(x.args) == 1 and U(x.args[0]) == U(v)]
+            lp = C.enclosing_loop(c)
+            elem = lp is not None and isinstance(lp, ast.For) and re.search(r"\[['\"]instruction_forms['\"]\]$", U(lp.iter)) and U(lp.target) == U(v)
+            if same or elem:
+                ctx.ok("R7", "%s: index and dumped list hold the same object `%s`" % (f.name, U(v)), f.where(c))
+            else:
+                ctx.bad("R7", "%s: look-up index and dumped list hold different objects" % f.name, f.where(c),
+                        "`%s` files `%s` in the look-up index only; the list that dump() emits keeps another object for the same entry. "
+                        "set_instruction() updates what get_instruction() finds - the index object - so an import that hits an "
+                        "existing entry changes nothing in the emitted model: `VADDPD-x_x_x-TP: 0.250` / `-LT: 9.000` imported into "
+                        "zen2 is emitted with the old 0.5 / 3.0" % (U(c)[:90], U(v)), f.qname, "index object " + U(v))
+    ctx.floor("R7", "append sites into the look-up index", n_sites, 2)
+    # (b) the operand comparison the importer's DB-format operands end in
+    cmp_ = ctx.repo.funcs.get(mm + "._compare_db_entries")
+    if cmp_ is None:
+        ctx.unknown("R7", "DB-format operand comparison", gi.where(), "_compare_db_entries not found")
+        return
+    cfg = C.cfg_of(cmp_)
+    live = [r for r in ast.walk(cmp_.node) if isinstance(r, ast.Return) and not any(
+        isinstance(p, ast.Return) and p is not r and cfg.dominates(p, r) and not C.enclosing_loops(p) and C.parent(p) is cmp_.node
+        for p in cmp_.node.body)]
+    first = next((st for st in cmp_.node.body if not (isinstance(st, ast.Expr) and isinstance(st.value, ast.Constant))), None)
+    const = isinstance(first, ast.Return) and isinstance(first.value, ast.Constant)
+    callers = [f for f in ctx.repo.all_funcs() if C.calls_to(f.node, "_compare_db_entries")]
+    if const and callers:
+        ctx.bad("R7", "DB-format operands are compared", cmp_.where(first),
+                "_compare_db_entries starts with `%s` (the comparison below it is dead code) and is where %s sends operands that are "
+                "not parsed classes - the dictionaries the importer builds: an imported form 'matches' the first existing entry with "
+                "the same mnemonic and operand count whatever its operand kinds, and is written over that entry instead of being added"
+                % (U(first), ", ".join(f.name for f in callers)), cmp_.qname, "constant comparison " + U(first))
+    else:
+        ctx.ok("R7", "DB-format operands are compared field by field", cmp_.where())
+
+
 def run(ctx):
     C.require_locals(ctx, ctx.func('db_interface._get_asmbench_output'), ['db_entries', 'entry'])
     C.require_locals(ctx, ctx.func('db_interface._get_ibench_output'), ['db_entries', 'entry', 'instruction', 'line'])
@@ -439,3 +498,4 @@ def run(ctx):
     _r4(ctx)
     _r5(ctx)
     _r6(ctx)
+    _r7(ctx)
